@@ -79,6 +79,9 @@ INDEX_VARIANTS = {
     "reversed": lambda n: list(range(n - 1, -1, -1)),
     "duplicate": lambda n: [7] * n,
     "strings": lambda n: ["r%d" % i for i in range(n)],
+    # RangeIndex objects that are not the default 0..n-1 (a slice of a larger frame, every other row)
+    "range_offset": lambda n: __import__("pandas").RangeIndex(10, 10 + n),
+    "range_step": lambda n: __import__("pandas").RangeIndex(0, 2 * n, 2),
 }
 
 
